@@ -6,21 +6,21 @@ print("| property | quick: evaluations / distinct non-trivial / wall | thorough:
 print("|---|---|---|---|")
 KEYS = {
  "C01": ["items", "bytes_compared", "reads", "past_count_probes", "asan_cases_run"],
- "C02": ["entries_compared", "values_compared", "past_window_probes", "unrepresentable_inputs_refused"],
+ "C02": ["entries_compared", "values_compared", "entries_compared_through_converted_range", "past_window_probes", "unrepresentable_inputs_refused"],
  "C03": ["lookups", "lookups_present", "lookups_absent", "lookups_on_converted_range", "lookups_single_property_constructor", "order_pairs_checked", "find_exhaustive.calls"],
  "C04": ["damage_cases_run.debug", "damage_cases_run.release", "op.crc-refit", "check_outcome.ok", "check_outcome.err", "command_line_check_outcome.ok", "command_line_check_outcome.err", "in_place_alterations_under_open_handles", "pristine_checks", "pristine_checks_concurrent", "pristine_checks_by_command_line"],
  "C05": ["items_identical", "content_bytes_differ", "cases_with_reported_errors"],
  "C06": ["items_dumped", "concurrent_reads_of_damaged_clusters", "asan_cases_run", "memcheck_cases_run"],
- "C07": ["first_accesses_entered_together(rendezvous)", "hook.reads_that_blocked", "hook.slices_during_decode", "clusters_parsed_more_than_once(evicted)", "max:simultaneous_decodes", "tsan_cases_run", "asan_cases_run", "miri_executions_ok"],
+ "C07": ["first_accesses_entered_together(rendezvous)", "hook.reads_that_blocked", "hook.slices_during_decode", "clusters_parsed_more_than_once(evicted)", "max:simultaneous_decodes", "decoder_stalls_of_650ms_injected", "tsan_cases_run", "asan_cases_run", "miri_executions_ok"],
  "C08": ["clusters", "events", "inversions", "runs_with_queue_pressure", "max:compressed_clusters_in_flight", "tsan_cases_run"],
- "C09": ["child.interrupted.death", "child.interrupted.error", "child.interrupted.transient", "child.interrupted.sigkill", "state.absent", "state.old", "state.new-complete"],
+ "C09": ["child.interrupted.death", "child.interrupted.error", "child.interrupted.transient", "child.interrupted.sigkill", "child.interrupted.eio-once", "child.interrupted.eio-from", "child.interrupted.kill", "previous_multi_file_container_intact_after_failed_one_file_creation", "state.absent", "state.old", "state.new-complete"],
  "C10": ["scenarios", "items_compared", "joined_by_command_line", "max:packs_in_one_container", "scenario.extras-via-symlinked-directory", "scenario.many-packs-onefile"],
  "C11": ["scenarios", "packs_unavailable", "scenarios_with_damaged_present_pack", "scenario.parent-is-a-file", "scenario.loose-embedded", "embedded_packs_with_stale_location"],
  "C12": ["rewrites", "effective_rewrites", "library_readbacks", "rewrites_by_command_line", "command_line_readbacks"],
- "C13": ["views.stream", "views.get_slice", "views.slice", "bytes_compared", "asan_cases_run", "miri_roundtrips_ok"],
+ "C13": ["views.stream", "views.get_slice", "views.slice", "views.read_exact", "views.read_exact_past_end_refused", "bytes_compared", "asan_cases_run", "miri_roundtrips_ok"],
  "C14": ["files_decoded", "bytes_decoded", "entries_decoded", "clusters_decoded", "free_data_comparisons", "container_listings_compared", "corpus_files_read"],
  "C15": ["handles_compared", "values_compared", "references_compared", "tsan_cases_run"],
- "C16": ["checked.must_be_raw", "checked.must_be_compressed", "verbatim_checks", "compressed_blob_checks", "dedup_repeats"],
+ "C16": ["checked.must_be_raw", "checked.must_be_compressed", "verbatim_checks", "compressed_blob_checks", "dedup_repeats", "cases_created_on_restricted_cpus"],
 }
 for i in range(1, 17):
     p = f"C{i:02d}"
